@@ -21,6 +21,38 @@ def _alarm(signum, frame):
     raise CaseTimeout()
 
 
+def set_config(mode):
+    """The configuration dimension of a case: 0 = pyoak's defaults, 1 = tracing on (pyoak.config.TRACE_LOGGING and the legacy
+    package's own switch; the debug records go to loggers without handlers), 2 = the runtime type check on.  No property
+    is stated relative to these switches.  Returns the function that puts the defaults back."""
+    if not mode:
+        return lambda: None
+    import pyoak.config as cfg
+    old = (cfg.TRACE_LOGGING, cfg.RUNTIME_TYPE_CHECK)
+    leg = sys.modules.get("pyoak.legacy.node")
+    if leg is None and mode == 1:
+        try:
+            import warnings
+            with warnings.catch_warnings():
+                warnings.simplefilter("ignore")
+                import pyoak.legacy.node as leg
+        except Exception:  # noqa: BLE001
+            leg = None
+    old_leg = getattr(leg, "TRACE_LOGGING", None)
+    if mode == 1:
+        cfg.TRACE_LOGGING = True
+        if leg is not None:
+            leg.TRACE_LOGGING = True
+    elif mode == 2:
+        cfg.RUNTIME_TYPE_CHECK = True
+
+    def restore():
+        cfg.TRACE_LOGGING, cfg.RUNTIME_TYPE_CHECK = old
+        if leg is not None and old_leg is not None:
+            leg.TRACE_LOGGING = old_leg
+    return restore
+
+
 def main():
     prop_id, inf, outf = sys.argv[1:4]
     prop = importlib.import_module("harness.props." + prop_id.lower())
@@ -34,12 +66,14 @@ def main():
             inp = from_text(c["input"])
             ds = c.get("digest_size")
             H = blake(ds) if ds else None
+            restore = set_config(c.get("cfg", 0))
             try:
                 signal.setitimer(signal.ITIMER_REAL, limit)
                 try:
                     impl = prop.impl(inp, c)
                 finally:
                     signal.setitimer(signal.ITIMER_REAL, 0)
+                    restore()
             except CaseTimeout:
                 impl = Con("ImplTimeout")
             except BaseException as e:  # noqa
